@@ -64,6 +64,18 @@ def handler(c):
     if c.get('tz'):
         # the same instants expressed in another time zone, asked of a fresh source (so that no memoised answer is reused)
         res['answers_tz'] = ask_all(build(c['assets'], c['adjust']), c['queries'], tz=c['tz'])
+    if c.get('shared_dir'):
+        # two source objects on ONE directory: the one with the opposite adjustment setting is built and queried first
+        os.makedirs(TMPROOT, exist_ok=True)
+        d = tempfile.mkdtemp(prefix='data_', dir=TMPROOT)
+        try:
+            write_csvs(d, c['assets'])
+            other = CSVDailyBarDataSource(d, Equity, adjust_prices=not c['adjust'])
+            ask_all(other, c['queries'])
+            mine = CSVDailyBarDataSource(d, Equity, adjust_prices=c['adjust'])
+        finally:
+            shutil.rmtree(d, ignore_errors=True)
+        res['answers_shared_dir'] = ask_all(mine, c['queries'])
     res['answers'] = ask_all(ds, c['queries'])
     if c.get('cut_day') is not None:
         cut = c['cut_day']
